@@ -9,6 +9,16 @@ import (
 // os.Stdin/Stdout/Stderr: opaque non-nil *os.File handles (passed around by pint, never read by encoded code).
 func init() {
 	foreignGlobalInit = append(foreignGlobalInit, func(e *Engine, g *ssa.Global) (Value, bool) {
+		if g.Pkg != nil && g.Pkg.Pkg.Path() == "net/http" && g.Name() == "DefaultClient" {
+			// an opaque non-nil *http.Client (intr_net.go models the calls made on it)
+			e.opaqueSeq++
+			return OpaqueVal{Type: g.Type().(*types.Pointer).Elem(), ID: e.opaqueSeq, Tag: "http.DefaultClient"}, true
+		}
+		if g.Pkg != nil && g.Pkg.Pkg.Path() == "io" && g.Name() == "Discard" {
+			// an opaque io.Writer sink
+			e.opaqueSeq++
+			return IfaceVal{Type: g.Type().(*types.Pointer).Elem(), Val: OpaqueVal{Type: g.Type().(*types.Pointer).Elem(), ID: e.opaqueSeq, Tag: "io.Discard"}}, true
+		}
 		if g.Pkg == nil || g.Pkg.Pkg.Path() != "os" {
 			return nil, false
 		}
